@@ -296,6 +296,10 @@ void World::do_op(const J &op)
 				id = (uint16_t)(id * 31 + 12345); payload[0] = id >> 8; payload[1] = id & 255;
 			}
 		}
+		if (op.gets("aim") == "before_first" && payload.size() >= 2 && first_id.count(to)) {
+			// the id one step BEFORE the target's first query (ids advance by 7727): a value the client never sent
+			uint16_t id = (uint16_t)(first_id[to] - 7727); payload[0] = id >> 8; payload[1] = id & 255; S.count("op.dgram.aim_before_first");
+		}
 		S.inject(src, h->id, dst, payload);
 		S.count("op.dgram");
 	}
@@ -420,6 +424,7 @@ struct WorldTracker : Monitor {
 	void on_send(const Dgram &d, Sock *s) override
 	{
 		if (!s || !s->owner || s->owner == w->srv || d.data.size() < 2 || d.dst.port != 53) return;
+		if (!w->first_id.count(s->owner->name)) w->first_id[s->owner->name] = (uint16_t)((d.data[0] << 8) | d.data[1]);
 		auto &q = w->recent_ids[s->owner->name];
 		q.push_back((uint16_t)((d.data[0] << 8) | d.data[1])); if (q.size() > 20) q.pop_front();
 		// size of a full upstream chunk of a real client, as seen on the wire (for frames sized or aligned to it)
